@@ -347,33 +347,25 @@ theorem unmarshal_nofind (o : Opts) (Ω : Oracles) (s : Stream) (h : NoWarn o) :
       · exact body off _
 
 /-- **no finding unless an axis is at warn** — Build -/
+theorem buildBody_nofind (o : Opts) (Ω : Oracles) (vt : Bytes) (vi rt0 : Nat) (cla : Bool) (c : Bytes) (h : NoWarn o) :
+    NoFind (buildBody H o Ω vt vi rt0 cla c) := by
+  unfold buildBody
+  nofind'
+  all_goals first
+    | exact validateHeader_nofind o Ω _ h
+    | exact parseBlock_nofind o Ω _ _ _ h
+    | exact validateDigest_nofind H o _ _ _ h
+
 theorem build_nofind (o : Opts) (Ω : Oracles) (vt : Bytes) (vi rt0 : Nat) (hdr : Fields) (c id : Bytes) (h : NoWarn o) :
     (build H o Ω vt vi rt0 hdr c id).fnd = [] := by
   unfold build
   simp only
-  generalize hh : (if (o.addMissingContentLength && !Fields.has (if (o.addMissingRecordId && !Fields.has hdr (bs "WARC-Record-ID")) = true then
-      Fields.setId hdr (bs "WARC-Record-ID") id else hdr) (bs "Content-Length")) = true then _ else _) = hdr2
-  have hnf : NoFind (do
-      let rtv ← validateHeader o Ω vi
-      let rt := if rt0 == 0 then rtv else rt0
-      let b ← parseBlock o Ω rt c false
-      validateDigest H o rt b false
-      let h ← M.hdr
-      (pure { verTxt := vt, verId := vi, rt := rt, hdr := h, block := b } : M Rec)) := by
-    nofind'
-    all_goals first
-      | exact validateHeader_nofind o Ω _ h
-      | exact parseBlock_nofind o Ω _ _ _ h
-      | exact validateDigest_nofind H o _ _ _ h
-  have := hnf.h ⟨hdr2, []⟩
+  generalize (o.addMissingContentLength && !Fields.has (if (o.addMissingRecordId && !Fields.has hdr (bs "WARC-Record-ID")) = true then
+      Fields.setId hdr (bs "WARC-Record-ID") id else hdr) (bs "Content-Length")) = cla
+  generalize (if cla = true then _ else _ : Fields) = hdr2
+  have := (buildBody_nofind H o Ω vt vi rt0 cla c h).h ⟨hdr2, []⟩
   revert this
-  cases (do
-      let rtv ← validateHeader o Ω vi
-      let rt := if rt0 == 0 then rtv else rt0
-      let b ← parseBlock o Ω rt c false
-      validateDigest H o rt b false
-      let h ← M.hdr
-      (pure { verTxt := vt, verId := vi, rt := rt, hdr := h, block := b } : M Rec)) ⟨hdr2, []⟩ with
+  cases buildBody H o Ω vt vi rt0 cla c ⟨hdr2, []⟩ with
   | mk r st => cases r <;> (intro h'; simpa using h')
 
 end
